@@ -150,7 +150,9 @@ def fieldPart (cfg : Cfg) (sh : Shape) (name : Bytes) (given : Option Doc) (sub 
   | .optional _, some v => (sub v).map (fun v' =>
       if v' matches .null then (if cfg.serializeEmpty then [(Key.text name, Doc.null)] else []) else [(Key.text name, v')])
   | .collection isMap, none =>
-    some (if cfg.serializeEmpty then [(Key.text name, if isMap then Doc.obj .nil else Doc.arr .nil)] else [])
+    -- an absent collection is the empty collection (its canonical form, so that running out of fuel is uniform)
+    (sub (if isMap then Doc.obj .nil else Doc.arr .nil)).map (fun e =>
+      if cfg.serializeEmpty then [(Key.text name, e)] else [])
   | .collection _, some .null => none
   | .collection _, some v => (sub v).map (fun v' =>
       if isEmptyColl v' && !cfg.serializeEmpty then [] else [(Key.text name, v')])
